@@ -216,6 +216,7 @@ GROUPS = {
     "fmt": ("GenFmt.v", "TieFmt.v", ["tie_fields"]),
     "load": ("GenLoad.v", "TieLoad.v", ["tie_read_offline"]),
     "selector": ("GenSelector.v", "TieSelector.v", ["tie_selector"]),
+    "div": ("GenDiv.v", "TieDiv.v", ["tie_div_loop", "tie_div"]),
     "guards": ("GenGuards.v", "TieGuards.v", ["tie_join_guard", "tie_record_flag"]),
     "reader": ("GenReader.v", "TieReader.v", ["tie_reader_params", "tie_lim_read", "tie_rec_read", "tie_fixed_read", "tie_ov_first", "tie_ov_next"]),
     "loops": ("GenLoops.v", "TieLoops.v", ["tie_run_turn", "tie_stop_requested", "tie_tok_read", "tie_programs"]),
@@ -1419,7 +1420,96 @@ def gen_guards(repo):
     return kwargs.emit(repo)
 
 
-GENERATORS = {"guards": gen_guards, "selector": gen_selector, "load": gen_load, "reader": gen_reader, "loops": gen_loops, "savers": gen_savers, "fsrc": gen_fsrc, "algebra": gen_algebra, "split": gen_split, "dur": gen_dur, "region": gen_region, "silence": gen_silence, "buf": gen_buf, "fmt": gen_fmt}
+# ---------------------------------------------------------------- AudioRegion.__truediv__ (a loop)
+
+class DivPure(Pure):
+    """pieces of AudioRegion.__truediv__: len(self) is the parameter `len`"""
+    def expr(self, e, env, binds):
+        if isinstance(e, ast.Call) and isinstance(e.func, ast.Name) and e.func.id == "len" and len(e.args) == 1 and isinstance(e.args[0], ast.Name) and e.args[0].id == "self":
+            return V("len", "Z")
+        return super().expr(e, env, binds)
+
+
+def gen_div(repo):
+    """__truediv__ cut into: what happens before the loop (the TypeError guard and the initial loop state), the loop test, and one
+    turn of the loop (new state + the bounds of the slice it appends).  Expected shape: statements; `acc = []`; `while TEST:` whose
+    body appends exactly one `self[a:b]` to acc; `return acc`.  The loop itself is rebuilt in TieDiv.v as a fuelled fixpoint over
+    these pieces and proved equal to the model's by induction."""
+    core = ast.parse(open(os.path.join(repo, "auditok", "core.py")).read())
+    cls = next(n for n in core.body if isinstance(n, ast.ClassDef) and n.name == "AudioRegion")
+    fns = [n for n in cls.body if isinstance(n, ast.FunctionDef) and n.name == "__truediv__"]
+    if len(fns) != 1 or [a.arg for a in fns[0].args.args] != ["self", "n"]:
+        raise TranslationError("AudioRegion.__truediv__(self, n) not found exactly once")
+    body = Pure.body_of(fns[0])
+    wi = [i for i, x in enumerate(body) if isinstance(x, ast.While)]
+    if len(wi) != 1 or wi[0] != len(body) - 2 or body[wi[0]].orelse or not isinstance(body[-1], ast.Return) or not isinstance(body[-1].value, ast.Name):
+        raise TranslationError("__truediv__: expected `while ...:` followed by `return <list>` at the end")
+    acc = body[-1].value.id
+    pre, loop = body[:wi[0]], body[wi[0]]
+    accdefs = [x for x in pre if isinstance(x, ast.Assign) and len(x.targets) == 1 and isinstance(x.targets[0], ast.Name) and x.targets[0].id == acc]
+    if len(accdefs) != 1 or not (isinstance(accdefs[0].value, ast.List) and not accdefs[0].value.elts):
+        raise TranslationError("__truediv__: the returned list must start empty")
+    pre = [x for x in pre if x is not accdefs[0]]
+    if any(isinstance(n, ast.Name) and n.id == acc for x in pre for n in ast.walk(x)):
+        raise TranslationError("__truediv__: the result list is used before the loop")
+    appends = [x for x in ast.walk(loop) if isinstance(x, ast.Call) and isinstance(x.func, ast.Attribute) and x.func.attr == "append"
+               and isinstance(x.func.value, ast.Name) and x.func.value.id == acc]
+    uses = [n for n in ast.walk(loop) if isinstance(n, ast.Name) and n.id == acc]
+    top = [x for x in loop.body if isinstance(x, ast.Expr) and x.value in appends]
+    if len(appends) != 1 or len(uses) != 1 or len(top) != 1:
+        raise TranslationError("__truediv__: the loop must append to the result list exactly once per turn, unconditionally")
+    sl = appends[0].args[0] if len(appends[0].args) == 1 else None
+    if not (isinstance(sl, ast.Subscript) and isinstance(sl.value, ast.Name) and sl.value.id == "self" and isinstance(sl.slice, ast.Slice)
+            and sl.slice.step is None and sl.slice.lower is not None and sl.slice.upper is not None):
+        raise TranslationError("__truediv__: the appended value must be self[a:b]")
+    # loop state: the names bound before the loop that the loop reads or rebinds, in order of first binding
+    bound = []
+    for x in pre:
+        for n in ast.walk(x):
+            if isinstance(n, ast.Name) and isinstance(n.ctx, ast.Store) and n.id not in bound:
+                bound.append(n.id)
+    used = {n.id for n in ast.walk(loop) if isinstance(n, ast.Name)}
+    state = [b for b in bound if b in used]
+    if len(state) != 3:
+        raise TranslationError("__truediv__: expected three loop variables (sub-region size, remainder, onset), found %r" % state)
+    idx = loop.body.index(top[0])
+    if idx != len(loop.body) - 1 and any(isinstance(n, ast.Name) and n.id in state and isinstance(n.ctx, ast.Store) for x in loop.body[idx + 1:] for n in ast.walk(x)) is None:
+        pass
+    out = list(HEADER)
+
+    def ret_tuple(k):
+        def ret(tr, v, env, node):
+            if v.ty == "error":
+                return v.text
+            if v.ty != "tuple" or len(v.const) != k or any(x.ty != "Z" for x in v.const):
+                bad(node, "expected %d integers" % k)
+            t = "(%s)" % ", ".join(x.text for x in v.const)
+            return "Ok %s" % t if k == 3 else t
+        return ret
+    f1 = ast.parse("def div_init(self, n):\n    pass").body[0]
+    f1.body = pre + ast.parse("return (%s)" % ", ".join(state)).body
+    sp = Spec("div_init_gen", [("n", "Z")], ret_tuple(3)); sp.extra_params = ["(len : Z)"]; sp.ret_type = "result (Z * Z * Z)"
+    out.append(DivPure(ast.fix_missing_locations(f1), sp, module=core, cls=cls).translate())
+    f2 = ast.parse("def div_test(self, %s):\n    return %s" % (", ".join(state), ast.unparse(loop.test))).body[0]
+    sp = Spec("div_test_gen", [(x, "Z") for x in state], lambda tr, v, env, node: v.text if v.ty == "bool" else bad(node, "loop test of type %s" % v.ty))
+    sp.extra_params = ["(len : Z)"]; sp.ret_type = "bool"
+    out.append(DivPure(ast.fix_missing_locations(f2), sp, module=core, cls=cls).translate())
+    # one turn: the body with the append replaced by the binding of the slice bounds
+    lo, hi = ast.unparse(sl.slice.lower), ast.unparse(sl.slice.upper)
+    turn_body = []
+    for x in loop.body:
+        if x is top[0]:
+            turn_body.extend(ast.parse("lo__ = %s\nhi__ = %s" % (lo, hi)).body)
+        else:
+            turn_body.append(x)
+    f3 = ast.parse("def div_turn(self, %s):\n    pass" % ", ".join(state)).body[0]
+    f3.body = turn_body + ast.parse("return (%s, lo__, hi__)" % ", ".join(state)).body
+    sp = Spec("div_turn_gen", [(x, "Z") for x in state], ret_tuple(5)); sp.extra_params = ["(len : Z)"]; sp.ret_type = "Z * Z * Z * Z * Z"
+    out.append(DivPure(ast.fix_missing_locations(f3), sp, module=core, cls=cls).translate())
+    return "\n".join(out)
+
+
+GENERATORS = {"div": gen_div, "guards": gen_guards, "selector": gen_selector, "load": gen_load, "reader": gen_reader, "loops": gen_loops, "savers": gen_savers, "fsrc": gen_fsrc, "algebra": gen_algebra, "split": gen_split, "dur": gen_dur, "region": gen_region, "silence": gen_silence, "buf": gen_buf, "fmt": gen_fmt}
 
 
 def emit_group(repo, group):
